@@ -1,7 +1,9 @@
 package io
 
 // C11: the string scanner is a faithful cursor with position-only line/column.
-// Inductive step from an arbitrary valid state + base case + short histories.
+// Inductive step from an arbitrary reachable state + base case + short histories.
+// Only the exported API is used, so the harness is independent of how the
+// scanner represents its state.
 
 // refLC is the reference model: line/column after a forward scan up to and
 // including position p (the end-of-input slot changes nothing).
@@ -38,10 +40,39 @@ func c11Content() []rune {
 }
 
 func c11Check(s *StringScanner, c []rune, p int, tag string) {
-	vAssert(s.position == p, tag+":position")
+	// the cursor position is observed through the next character (contents are
+	// symbolic, so a wrong position shows for some content) ...
+	vAssert(s.Peek() == charAtRef(c, p+1), tag+":position")
 	line, col := refLC(c, p)
 	vAssert(s.Line() == line, tag+":line")
 	vAssert(s.Column() == col, tag+":column")
+}
+
+// c11Probe ends a harness: two steps back and three forward tell the
+// end-of-input slot from the last character and from anything beyond it
+// (all of which peek -1).
+func c11Probe(s *StringScanner, c []rune, p int, tag string) {
+	n := len(c)
+	for i := 0; i < 2; i++ {
+		s.Unread()
+		p = clampPos(p-1, n)
+		c11Check(s, c, p, tag+":probe-back")
+	}
+	for i := 0; i < 3; i++ {
+		r := s.Read()
+		p = clampPos(p+1, n)
+		vAssert(r == charAtRef(c, p), tag+":probe-read")
+		c11Check(s, c, p, tag+":probe-forward")
+	}
+}
+
+// c11Forward: a fresh scanner advanced to model position p through the API.
+func c11Forward(c []rune, p int) *StringScanner {
+	s := NewStringScanner(string(c))
+	for i := 0; i <= p; i++ {
+		s.Read()
+	}
+	return s
 }
 
 func clampPos(p, n int) int {
@@ -106,15 +137,21 @@ func c11Op(s *StringScanner, c []rune, p int, op int) int {
 	return p
 }
 
-// H_C11_step: one operation from an arbitrary valid state.
+// H_C11_step: one operation from the state a forward scan to any position p
+// leaves (every reachable state is such a state if the step is inductive:
+// the note records whether the state after the operation is structurally
+// identical to the forward-scan state of the new position - then the claim
+// covers histories of any length, otherwise only the bounded ones below).
 func H_C11_step() {
 	c := c11Content()
 	n := len(c)
 	p := vChoice("p", n+2) - 1
-	line, col := refLC(c, p)
-	s := &StringScanner{content: c, position: p, line: line, column: col}
+	s := c11Forward(c, p)
+	c11Check(s, c, p, "forward")
 	op := vChoice("op", 6)
-	c11Op(s, c, p, op)
+	p2 := c11Op(s, c, p, op)
+	vNote(vSameState(s, c11Forward(c, p2)), "step:state-is-a-function-of-the-position")
+	c11Probe(s, c, p2, "step")
 	vDone()
 }
 
@@ -122,8 +159,8 @@ func H_C11_step() {
 func H_C11_base() {
 	c := c11Content()
 	s := NewStringScanner(string(c))
-	vAssert(len(s.content) == len(c), "base:length")
 	c11Check(s, c, -1, "base")
+	c11Probe(s, c, -1, "base")
 	vDone()
 }
 
@@ -137,5 +174,6 @@ func H_C11_hist() {
 		op := vChoice("op", 6)
 		p = c11Op(s, c, p, op)
 	}
+	c11Probe(s, c, p, "hist")
 	vDone()
 }
